@@ -30,7 +30,7 @@ ASSUMPTIONS = [
     "legacy mirror fields in the record are 8-bit; values above 255 are not required to be mirrored",
 ]
 REQUIRED_LABELS = {
-    "quick": ["edit_history", "sample_index_gt0", "env_nondefault", "editor_fields", "effect", "note_map", "ctx_synth", "ctx_project", "legacy_signature", "legacy_no_envelopes", "odd_data_length", "points_ge_256"],
+    "quick": ["edit_history", "sample_index_gt0", "env_nondefault", "editor_fields", "effect", "note_map", "ctx_synth", "ctx_project", "legacy_signature", "legacy_no_envelopes", "odd_data_length", "points_ge_256", "one_sample_object_in_several_slots"],
     "thorough": ["edit_history", "sample_index_gt0", "env_nondefault", "editor_fields", "effect", "note_map", "ctx_synth", "ctx_project", "legacy_signature", "legacy_no_envelopes", "odd_data_length", "points_ge_256", "index_ge_256", "slot_127"],
 }
 
@@ -81,6 +81,8 @@ def labels_of(ms):
         labels.add("sample_index_gt0")
     if any(i == 127 for i, _ in p.get("samples", [])):
         labels.add("slot_127")
+    if p.get("sample_aliases"):
+        labels.add("one_sample_object_in_several_slots")
     for i, sd in p.get("samples", []):
         fs = {"int8": 1, "int16": 2, "float32": 4}[sd["format"]] * (2 if sd["channels"] == "stereo" else 1)
         if (len(sd["data"]) // 2) % fs:
